@@ -14,11 +14,9 @@ pub struct Mut {
 
 impl Mut {
     pub(crate) fn string(&self, depth: u8) -> String {
-        format!(
-            "mut {} {}",
-            self.var_type,
-            self.variable.read().unwrap().debug(depth)
-        )
+        // a cell can (indirectly) contain itself: release the lock before formatting the content
+        let variable = self.variable.read().unwrap().clone();
+        format!("mut {} {}", self.var_type, variable.debug(depth))
     }
 }
 
